@@ -103,6 +103,28 @@ impl Monitor for C14 {
                 }
             }
         }
+        // "trading is refused before the pool's trade-enable time" - not because somebody sent lamports to the address where a
+        // static-fee pool's oracle would live: a refused swap / two-hop whose oracle address holds lamports and nothing else
+        // is replayed on a copy without them; if it then goes through, the lamports decided
+        if ev.tx.ixs.len() == 1 && !ev.out.ok && ev.fail_cpi.is_none() {
+            if let Some(c) = wpix::decode(&ev.tx.ixs[0]) {
+                if matches!(c.name(), "swap" | "swap_v2" | "two_hop_swap" | "two_hop_swap_v2") {
+                    let funded: Vec<solana_program::pubkey::Pubkey> = ["oracle", "oracle_one", "oracle_two"].iter().filter_map(|n| c.acct(n)).filter(|k| ev.pre.get(k).map(|a| a.owner == crate::ix::sys() && a.data.is_empty() && a.lamports > 0).unwrap_or(false)).collect();
+                    if !funded.is_empty() {
+                        let mut f = ev.pre.clone();
+                        for k in &funded {
+                            f.accts.remove(k);
+                        }
+                        let r = crate::rt::exec_tx_simple(&mut f, ev.tx);
+                        cov.probe("refused_trade_replayed_without_lamports_at_the_oracle_address");
+                        if r.ok {
+                            out.push(viol("lamports_at_the_oracle_address_block_trading", ev.idx, format!("{} is refused ({:?}) while the oracle address {} of a pool without an oracle holds lamports, and goes through on a copy without them", c.name(), ev.out.custom(), funded[0])));
+                            return out;
+                        }
+                    }
+                }
+            }
+        }
         // two-hop: either pool's trade-enable time
         if ev.tx.ixs.len() == 1 {
             if let Some(c) = wpix::decode(&ev.tx.ixs[0]) {
